@@ -26,6 +26,13 @@ CLAIMED["C02"] = ("DESIGN.md §4 C02",
     "segmentation) and sizes the body by the parsed Content-Length; X-Forwarded-For elements are trimmed, origin = last listed, peer appended. "
     "Does not decide that parsed field values equal what the bytes denote.")
 
+CLAIMED["C01"] = ("DESIGN.md §4 C01",
+    "R-MUSTPASS / R-DOM over the MIR CFG of both connection loops, R-TABLE (error mapping), R-FLOW (written bytes, Content-Length value, keep-alive flag definitions), R-CALLS (reads, read-ahead buffers), R-SIBLING (threaded vs tokio fact sets)",
+    "Decides on all paths of both connection loops: exactly one write per parsed request; 400/408/close error mapping; Connection/Server/Date/"
+    "Content-Length, version echo and CORS on every well-formed-request path; keep-alive iff the case-insensitive Connection test; "
+    "self-delimiting when kept open; nothing after the body; no read-ahead discarded; segmentation-proof reads; threaded and tokio loops agree. "
+    "Known findings: OPTIONS arm skips the fix-up, per-request BufReader, CRLF after body.")
+
 NOT_YET = {}
 
 NOT_APPLICABLE = {
